@@ -7,9 +7,17 @@ optimality, per-sample minimum, merges within a sample, min-merging stops exactl
 from harness import prep_common as P
 
 RULE = ("per operation (3 generators, 6 smoothers, initial plate, combination filter, 2 hold-outs): random screens with several "
-        "samples of few experiments each, samples with exactly the size limit, single-agent rows, one or many plates, "
-        "one-sample-per-plate designs with assorted plate sizes, random parameters incl. boundary/invalid ones; numpy seed "
-        "recorded per case. Non-trivial: operation returned, >=4 rows, >=2 unobserved plates.")
+        "samples of few experiments each, samples with exactly the size limit, single-agent and vehicle-only rows, arity 1-3, one or many "
+        "plates, one-sample-per-plate designs with assorted plate sizes, random parameters incl. boundary/invalid ones; PLUS directed "
+        "families (evidence distribution `directed.*`, clause hit counts `clause.*`): >= 11 generated plates in one call for the "
+        "segregating / pairwise / permutation generators (a fixed-width `<U17` name buffer turns generated_plate_10 into generated_plate_1; "
+        "pairwise screens give the first sample < 10 tuples so plates 1 and 10 belong to different samples), samples exactly at / one above / "
+        "below max_plate_size and 11-14 samples at once, top-bottom merging with plate counts 3,5,6,7,11 (also 1,2,4,9) per sample and 1-4 "
+        "iterations (ceil-halving per iteration), min-merging where the two smallest plates sum to exactly the limit or limit+1 (at the "
+        "start or after one merge), fixed size with plates exactly at the size, optimal size on size lists whose retained count ties, "
+        "per-sample minimum with >= 2 samples to drop interleaved in id order with samples that stay (also through the ensemble), plate "
+        "names mostly `generated_plate_<n>` with one- and two-digit n; numpy seed recorded per case. The oracles read the INPUT from the "
+        "raw case description. Non-trivial: operation returned, >=4 rows, >=2 unobserved plates.")
 
 
 def run(ctx, res):
